@@ -79,6 +79,26 @@ def gen(seed, tier, index):
             for t in range(nproc): g.emit({"act": "barrier"}, t)
             for t in range(nproc): g.emit({"act": "readattrs", "s": sess[t], "o": ref, "types": READ_T, "qr": rd}, t)
         for t in range(nproc): g.emit({"act": "barrier"}, t)
+    if stratum == 2:
+        # batches: ONE process destroys and creates several objects while the others are held at a barrier; then everybody looks. What an observer has
+        # to notice in one re-index is a MIXTURE of removed and added files (net growth, net shrinkage, equal count)
+        rounds = r.choice([2, 3, 4])
+        for rd in range(rounds):
+            for t in range(nproc): g.emit({"act": "barrier"}, t)
+            m = r.randrange(nproc); s = sess[m]
+            acts = ["d"] * r.choice([0, 1, 2, 2, 3]) + ["c"] * r.choice([0, 1, 1, 2])
+            r.shuffle(acts)
+            for a_ in acts:
+                live_ = [x for x in allrefs if g.w.objs.get(x) is not None and g.w.objs[x].alive]
+                if a_ == "d" and live_:
+                    g.emit({"f": "C_DestroyObject", "s": s, "o": r.choice(live_)}, m)
+                else:
+                    ref = g.new_obj(); pv = r.random() < 0.3
+                    g.emit({"f": "C_CreateObject", "s": s, "tmpl": (mk_key if r.random() < 0.6 else mk_data)(ref, r, pv), "out": ref}, m); allrefs.append(ref); created[m].append(ref)
+            for t in range(nproc): g.emit({"act": "barrier"}, t)
+            for t in range(nproc):
+                if r.random() < 0.8: g.emit({"act": "find", "s": sess[t], "tmpl": [], "batches": []}, t)
+        for t in range(nproc): g.emit({"act": "barrier"}, t)
     for t in range(nproc):
         n = r.choice([4, 6, 8, 12]) if tier == "quick" else r.choice([6, 10, 16])
         if rounds: n = r.choice([0, 2, 4])
